@@ -59,11 +59,11 @@ def program(draw, max_funcs=5, max_ops=8, valstrat=None):
                                       ["inst", "Base"], ["inst", "D1"], ["lit", 1.5], ["dict", []], ["set", [["lit", 1]]]])
     op = st.one_of(
         st.tuples(st.just("call"), st.integers(0, n - 1), st.lists(vs, max_size=6)),
-        st.tuples(st.sampled_from(["next", "next", "next", "close", "throw", "leave", "drop"]), st.integers(0, 7)),
+        st.tuples(st.sampled_from(["next", "next", "next", "close", "throw", "leave", "drop", "callkept"]), st.integers(0, 7)),
     )
     ops = draw(st.lists(op.map(list), min_size=1, max_size=max_ops))
     return dict(funcs=funcs, ops=ops, fuel=draw(st.integers(0, 3)), drain=draw(st.booleans()),
-                repeat=draw(st.sampled_from([1, 1, 1, 2, 4, 12])))
+                repeat=draw(st.sampled_from([1, 1, 1, 2, 4, 12])), warmup=draw(st.booleans()))
 
 
 # ---------------------------------------------------------------------------------------------
@@ -292,6 +292,7 @@ def render(prog):
             top.append(f"        S.R.exc(_c, _e)")
             top.append(f"        raise")
             top.append(f"    S.R.post(_c, _r)")
+            top.append(f"    S.R.kept.append(inner)")
             top += body(f, "    ")
         else:
             dec = {"classmethod": "@classmethod", "staticmethod": "@staticmethod", "property": "@property", "setprop": "@property",
